@@ -96,6 +96,8 @@ class CheckedLock:
         self._l = threading.Lock(); self.sched = sched; self.holder = None
 
     def acquire(self, *a, **k):
+        if self.sched.lock_points and self.sched.current is not None:
+            self.sched.point("lock")      # a thread can lose the processor right before it takes the lock
         if self._l.locked() and self.holder is not self.sched.current:
             raise Deadlock("lock held by a suspended actor")
         r = self._l.acquire(*a, **k)
@@ -128,6 +130,7 @@ class Scheduler:
         self.locks = []
         self.on_event = None
         self.aborted = False
+        self.lock_points = False        # also preempt right before every lock acquisition (between two critical sections)
 
     def abort(self):
         """release every actor thread (they unwind and exit); call from a finally: in the harness"""
